@@ -139,8 +139,12 @@ def work(job):
     return acc.result()
 
 
+EXT_THOROUGH = [4, 5, 7, 9, 10.5, -3, -7, 0.25, 0.75, 1.5, 99, 101, 999.5, 1e-3, -1e-3, 123456, '0', '00', '1.0', '-0', '+1', '.5', '5.',
+                'Abc', 'ABC', 'abd', 'ab', 'a b', 'é', 'É', 'z', 'Z', '_', '~', '0a', 'a0', 'true', 'False', '#N/A!', 'N/A', '#n/a']
+
+
 def run(ctx):
-    values = POOL + EXT
+    values = POOL + EXT + (EXT_THOROUGH if ctx.thorough else [])
     k = ctx.seed % len(values)
     values = values[k:] + values[:k]          # rotation only; the set is always complete
     jobs = [(op, 'cells', values) for op in ALL_OPS]
